@@ -2,6 +2,7 @@ package actionlint
 
 import (
 	"path"
+	"sort"
 	"strings"
 )
 
@@ -288,7 +289,16 @@ func (rule *RuleRunnerLabel) tryToGetLabelsInMatrix(label *String, m *Matrix) []
 }
 
 func (rule *RuleRunnerLabel) checkConflict(comp runnerOSCompat, label *String) bool {
-	for c, l := range rule.compats {
+	// Check in the order of positions of the labels to make the reported label deterministic
+	cs := make([]runnerOSCompat, 0, len(rule.compats))
+	for c := range rule.compats {
+		cs = append(cs, c)
+	}
+	sort.Slice(cs, func(i, j int) bool {
+		return rule.compats[cs[i]].Pos.IsBefore(rule.compats[cs[j]].Pos)
+	})
+	for _, c := range cs {
+		l := rule.compats[c]
 		if c&comp == 0 {
 			rule.Errorf(label.Pos, "label %q conflicts with label %q defined at %s. note: to run your job on each workers, use matrix", label.Value, l.Value, l.Pos)
 			return false
